@@ -57,6 +57,10 @@ func StartKeygenCommon(taproot bool, group curve.Curve, participants []party.ID,
 			for _, k := range participants {
 				verificationSharesCopy[k] = group.NewPoint()
 			}
+		} else {
+			// round3 adds the received shares to this scalar: work on a copy, the caller keeps using its config
+			// (signing with it while the refresh is running, or after the refresh was aborted)
+			privateShare = group.NewScalar().Set(privateShare)
 		}
 
 		return &round1{
